@@ -61,6 +61,31 @@ def run(ctx):
         p = A.lookup(n)
         return A.pkey(p) if p is not None else None
 
+    # which particle an AmpGen spelling denotes: the pinned table pinned/ampgen_names.json (an observation of the unchanged
+    # tree, tools/mk_ampgen_names.py) against particle_from_string_name; every name of the generators and of the shipped model
+    # on every run, a seeded sample of the rest (quick) or all of it (thorough)
+    import json as _json
+    import os as _os
+
+    gold_path = _os.path.join(_os.path.dirname(_os.path.dirname(_os.path.abspath(__file__))), "pinned", "ampgen_names.json")
+    if _os.path.exists(gold_path):
+        gold = _json.load(open(gold_path))["names"]
+        always = set(A.RES_V + A.RES_A + A.RES_S + A.RES_T + A.RES_P + A.FINAL + ["D0", "Dbar0", "D*0", "Bbar0", "B0", "K~*0", "b~", "Kbar0",
+                                                                                    "Sigma(1385)bar0", "D(2)*(2460)bar0", "K*(892)bar0"])
+        names = sorted(gold)
+        pick = [n for n in names if n in always]
+        rest = [n for n in names if n not in always]
+        pick += rest if tier != "quick" else rng.sample(rest, min(len(rest), 70))
+        for n in pick:
+            p = A.lookup(n)
+            got = int(p.pdgid) if p is not None else None
+            want = gold[n] if isinstance(gold[n], int) else None
+            res.case()
+            res.count("ampgen_names_checked")
+            if got != want:
+                res.violation("an AmpGen-style particle name denotes another particle than on the unchanged tree (pinned table)",
+                              {"kind": "ampgen-name", "name": n}, impl=got, model=want, clause="particle names")
+
     def one(doc, label, reader=AmplitudeChain):
         text = A.render_amp(doc, rng)
         case = {"kind": "amp-read", "label": label, "text": text, "reader": reader.__name__}
